@@ -11,6 +11,7 @@ import (
 	"path"
 	"path/filepath"
 	"strconv"
+	"strings"
 	"sync"
 	"time"
 
@@ -720,6 +721,11 @@ func (f *STFS) Rename(oldname, newname string) error {
 	defer f.ioLock.Unlock()
 
 	if root, err := f.metadata.Metadata.GetRootPath(context.Background()); err != nil || root == oldname {
+		return os.ErrInvalid
+	}
+
+	// Refuse to move a directory into its own subtree
+	if strings.HasPrefix(newname, strings.TrimSuffix(oldname, string(filepath.Separator))+string(filepath.Separator)) {
 		return os.ErrInvalid
 	}
 
